@@ -36,13 +36,16 @@ def scripts(rng, tier, n=None):
             p.rtp = p.rtp[:5] + (3,)           # cryptex is defined for streams with confidentiality
         # a third of the scripts use wildcard policies on both sides: the streams that do the work are clones of
         # the template (srtp_stream_clone copies services, keys, MKI setting, window size), several SSRCs
-        wild = rng.random() < 0.35
+        wild = rng.random() < 0.35 and k % 10 != 5
         ssrcs = [ssrc, ssrc ^ 0x55, ssrc ^ 0x1000] if wild else [ssrc]
         if wild:
             L = [p.line(1, ssrc_type=SSRC_ANY_OUT), p.line(2, ssrc_type=SSRC_ANY_IN), "create 1 1", "create 2 2"]
         else:
             L = [p.line(1), "create 1 1", "create 2 1"]
         seq = [0, 1, 65533, 30000][k % 4] if k % 3 == 0 else rng.choice([0, 1, 65533, 30000])
+        forced_late = k % 10 == 5 and not wild
+        if forced_late:
+            seq = 65533        # RFC 6904 class: 65533, 65535, 0, then 65534 LATE (its index lies before the wrap), with listed elements
         gaps = []           # sequence numbers the sender skipped: sent LATE afterwards (sender-side reordering, also across the wrap)
         for i in range(8 if tier == "quick" else 30):
             big = tier != "quick" and rng.random() < 0.05
@@ -52,12 +55,12 @@ def scripts(rng, tier, n=None):
                 cc_, xd, pl = [(1, b"", 0), (3, rand_key(rng, 4), 4), (15, b"", 16), (2, rand_key(rng, 4), 3)][i]
                 pkt = rtp_packet(ssrcs[0], seq & 0xffff, payload=rand_key(rng, pl), cc=cc_, ext=(0xBEDE, xd))
                 seq += 1
-            elif gaps and not wild and rng.random() < 0.3:
+            elif gaps and not wild and (rng.random() < 0.3 or (forced_late and i == 3)):
                 late = gaps.pop(rng.randrange(len(gaps)))
                 pkt = rand_rtp(rng, ssrcs[0], late & 0xffff, ids=list(p.enc_xtn) or None, big=big, ext_p=ext_p)
             else:
                 pkt = rand_rtp(rng, rng.choice(ssrcs), seq & 0xffff, ids=list(p.enc_xtn) or None, big=big, ext_p=ext_p)
-                step = rng.choice([1, 1, 2, 5])
+                step = rng.choice([1, 1, 2, 5]) if not (forced_late and i < 3) else [2, 1, 1][i]
                 gaps += [seq + d for d in range(1, step)]
                 gaps = gaps[-6:]
                 seq += step
